@@ -52,6 +52,66 @@ type c17Run struct {
 	static   *bsctypes.ClientState
 	accepted int
 	corrupt  int
+	upAt     uint64 // height governance upgraded the client to (0 = never)
+}
+
+// after is appended to verdict signatures once the client was upgraded by governance.
+func (r *c17Run) after() string {
+	if r.upAt != 0 {
+		return "@after-upgrade"
+	}
+	return ""
+}
+
+// upgrade lets governance fast-forward the client: the chain advances (unseen by the
+// client) to its next epoch header, and MsgUpgradeClient installs that header with the
+// validator set in force and the recent signers a client that had followed would hold.
+func (r *c17Run) upgrade() {
+	c, w, n, chain := r.c, r.w, r.n, r.chain
+	for i := 0; ; i++ {
+		if i > int(chain.Cfg.Epoch)+1 {
+			return
+		}
+		sub, err := chain.NextValid()
+		c.Check(err)
+		if sub == nil {
+			return // nobody may seal: the chain is stuck
+		}
+		res := chain.M.Check(sub.Header)
+		if res.Verdict == model.ParliaInvalid {
+			c.Failf("generator produced an invalid header while advancing to the upgrade height: %s", res.Reason)
+		}
+		chain.Accept(sub.Header, res.Signer, res.SignerOK)
+		if sub.Header.Height.RevisionHeight%chain.Cfg.Epoch == 0 {
+			break
+		}
+	}
+	m := chain.M
+	var hs []uint64
+	for h := range m.Recents {
+		hs = append(hs, h)
+	}
+	sort.Slice(hs, func(i, j int) bool { return hs[i] < hs[j] })
+	var recents []bsctypes.Signer
+	for _, h := range hs {
+		recents = append(recents, bsctypes.Signer{Height: clienttypes.NewHeight(0, h), Validator: m.Recents[h].Bytes()})
+	}
+	cs := *r.static
+	cs.Header = *model.CloneBscHeader(m.Latest)
+	cs.Validators = bsc.AddrBytes(m.InForce)
+	cs.RecentSigners = recents
+	cons := &bsctypes.ConsensusState{Timestamp: m.Latest.Time, Number: m.Latest.Height, Root: append([]byte{}, m.Latest.Root...)}
+	ctx := n.SetupCtx().WithBlockTime(w.TimeOn(n))
+	c.Check(n.App.TIBCKeeper.ClientKeeper.UpgradeClient(ctx, c17Client, &cs, cons))
+	_, err := w.Block(n, nil, world.NoCrash)
+	c.Check(err)
+	r.upAt = m.Latest.Height.RevisionHeight
+	w.Stats.Inc("client-upgraded-by-governance")
+	w.Log.Add("bsc client upgraded by governance to epoch header #%d (set in force %d, pending=%v)", r.upAt, len(m.InForce), m.HasPending)
+	c.Op("upgrade")
+	if what, detail := r.compareState(); what != "" {
+		c.Violate("C17/state-after-upgrade/"+what, "after the governance upgrade to #%d: %s", r.upAt, detail)
+	}
 }
 
 func runC17(c *core.Ctx, crashes bool) {
@@ -164,6 +224,9 @@ func runC17(c *core.Ctx, crashes bool) {
 			_, err := w.Block(n, nil, world.NoCrash)
 			c.Check(err)
 			c.Op("idle")
+			if r.upAt == 0 && ch.Int(3) == 1 { // (drawn last in the step: recorded runs replay unchanged)
+				r.upgrade()
+			}
 		case 4:
 			pt := []world.CrashPoint{world.CrashBeforeFinalize, world.CrashAfterFinalize, world.CrashAfterCommit}[ch.Int(3)]
 			if ch.Bool(1, 2) {
@@ -258,7 +321,7 @@ func (r *c17Run) submit(sub *bsc.Submission, crash world.CrashPoint) {
 	// ---- (a) verdict
 	switch {
 	case res.Verdict == model.ParliaValid && !ok:
-		c.Violate(fmt.Sprintf("C17/rejected-valid/%s/%s-%d", sub.Kind, tx.Space, tx.Code),
+		c.Violate(fmt.Sprintf("C17/rejected-valid/%s/%s-%d%s", sub.Kind, tx.Space, tx.Code, r.after()),
 			"header #%d (kind %s, child of latest #%d, signer %s in the set in force of %d, in-turn=%v, difficulty %d, gas limit %d vs parent %d) is valid by the Parlia rules but MsgUpdateClient failed: code %d/%s %s",
 			number, sub.Kind, latestBefore, res.Signer.Hex(), nInForce, res.InTurn, h.Difficulty, h.GasLimit, m.Latest.GasLimit, tx.Code, tx.Space, world.Short(tx.Log, 200))
 	case res.Verdict == model.ParliaInvalid && ok:
@@ -268,7 +331,7 @@ func (r *c17Run) submit(sub *bsc.Submission, crash world.CrashPoint) {
 			sig += "/number-le-half-n"
 			extra = fmt.Sprintf(" (header number %d <= floor(N/2) = %d)", number, nInForce/2)
 		}
-		c.Violate(sig, "header #%d (kind %s) breaks rule %q but MsgUpdateClient succeeded%s: latest was #%d, set in force has %d members, signer %s, %s",
+		c.Violate(sig+r.after(), "header #%d (kind %s) breaks rule %q but MsgUpdateClient succeeded%s: latest was #%d, set in force has %d members, signer %s, %s",
 			number, sub.Kind, res.Reason, extra, latestBefore, nInForce, res.Signer.Hex(), r.recentSummary(res.Signer, number))
 	}
 
@@ -314,7 +377,7 @@ func (r *c17Run) submit(sub *bsc.Submission, crash world.CrashPoint) {
 
 	// ---- (b) state after acceptance
 	if what, detail := r.compareState(); what != "" {
-		c.Violate("C17/state-after-accept/"+what, "after accepting header #%d (kind %s): %s", number, sub.Kind, detail)
+		c.Violate("C17/state-after-accept/"+what+r.after(), "after accepting header #%d (kind %s): %s", number, sub.Kind, detail)
 	}
 }
 
